@@ -5,18 +5,18 @@ Import ListNotations.
 
 Section Iter.
   Variable dec : Q -> Q -> option bool.
-  Variables (inmem : bool) (prof : list XQ) (n_req budget : nat).
+  Variables (inmem : bool) (prof : list XQ) (n_req budget : nat) (early_ok : bool).
 
   (* whatever the batch sizes were: a normal return evaluated no more than the budget, returns at most the
      request, exactly the request when enough samples passed, and every returned position passed the rule
      against ALL likelihoods evaluated so far with the draws of the last iteration *)
   Lemma it_loop_ok : forall fuel c steps good ev,
-    it_loop dec inmem prof n_req budget fuel c steps = ItOk good ev ->
+    it_loop dec inmem prof n_req budget early_ok fuel c steps = ItOk good ev ->
     (c <= ev)%nat /\ (ev <= budget)%nat /\
     exists us acc, accept_idx dec (firstn ev prof) us = Some acc /\ good = firstn n_req acc /\
                    (length good <= n_req)%nat /\
                    ((n_req <= length acc)%nat -> length good = n_req) /\
-                   ((length acc < n_req)%nat -> (budget <= ev)%nat /\ good = acc) /\
+                   ((length acc < n_req)%nat -> ((budget <= ev)%nat \/ early_ok = true) /\ good = acc) /\
                    (inmem = true -> forallb xfinite (firstn ev prof) = true).
   Proof.
     induction fuel as [|fuel IH]; intros c steps good ev H; cbn [it_loop] in H; [discriminate|].
@@ -43,27 +43,33 @@ Section Iter.
         split; [exact Eacc|]. split; [reflexivity|].
         split; [rewrite firstn_length; lia|].
         split; [intros Hge; lia|].
-        split; [intros _; split; [exact Ebud|apply firstn_all2; lia]|exact Hfin].
-      + destruct rest as [|[size' us'] rest']; [discriminate|].
+        split; [intros _; split; [left; exact Ebud|apply firstn_all2; lia]|exact Hfin].
+      + destruct rest as [|[size' us'] rest'].
+        { destruct early_ok eqn:Eearly; [|discriminate]. injection H as <- <-.
+          split; [lia|]. split; [exact Eb|]. exists us, acc.
+          split; [exact Eacc|]. split; [reflexivity|].
+          split; [rewrite firstn_length; lia|].
+          split; [intros Hge; lia|].
+          split; [intros _; split; [right; reflexivity|apply firstn_all2; lia]|exact Hfin]. }
         destruct (Nat.eqb size' 0); [discriminate|].
         apply IH in H. destruct H as (Hc & Hev & Hex). split; [lia|]. split; [exact Hev|exact Hex].
   Qed.
 
   (* fuel exhaustion never looks like a result *)
-  Lemma it_loop_fuel0 c steps : it_loop dec inmem prof n_req budget 0 c steps = ItRaise ErrMaxIter.
+  Lemma it_loop_fuel0 c steps : it_loop dec inmem prof n_req budget early_ok 0 c steps = ItRaise ErrMaxIter.
   Proof. reflexivity. Qed.
 
   Lemma it_run_too_small maxiter first steps :
-    (budget < first)%nat -> it_run dec inmem prof n_req budget maxiter first steps = ItRaise ErrTooSmall.
+    (budget < first)%nat -> it_run dec inmem prof n_req budget early_ok maxiter first steps = ItRaise ErrTooSmall.
   Proof. intros H. unfold it_run. apply Nat.ltb_lt in H. rewrite H. reflexivity. Qed.
 
   Lemma it_run_ok maxiter first steps good ev :
-    it_run dec inmem prof n_req budget maxiter first steps = ItOk good ev ->
+    it_run dec inmem prof n_req budget early_ok maxiter first steps = ItOk good ev ->
     (first <= budget)%nat /\ (ev <= budget)%nat /\
     exists us acc, accept_idx dec (firstn ev prof) us = Some acc /\ good = firstn n_req acc /\
                    (length good <= n_req)%nat /\
                    ((n_req <= length acc)%nat -> length good = n_req) /\
-                   ((length acc < n_req)%nat -> (budget <= ev)%nat /\ good = acc) /\
+                   ((length acc < n_req)%nat -> ((budget <= ev)%nat \/ early_ok = true) /\ good = acc) /\
                    (inmem = true -> forallb xfinite (firstn ev prof) = true).
   Proof.
     unfold it_run. destruct (Nat.ltb budget first) eqn:E; [discriminate|]. apply Nat.ltb_ge in E.
